@@ -113,10 +113,9 @@ func runNative(repo, pkgPath string, harness []string, entries []string, cases [
 	replace := map[string]string{}
 	var habs []string
 	for _, h := range harness {
-		abs, _ := filepath.Abs(h)
-		habs = append(habs, abs)
+		habs = append(habs, h) // already absolute (possibly with an @pkgdir suffix)
 	}
-	ovl, err := sym.BuildOverlay(repo, pkgPath, habs, "/verif/zzvrf")
+	ovl, err := sym.BuildOverlay(repo, pkgPath, habs, "/verif/zzvrf", true)
 	if err != nil {
 		return nil, err
 	}
@@ -148,7 +147,7 @@ func runNative(repo, pkgPath string, harness []string, entries []string, cases [
 	cdata, _ := json.Marshal(cases)
 	os.WriteFile(casesPath, cdata, 0o644)
 
-	cmd := exec.Command("go", "test", "-v", "-vet=off", "-count=1", "-timeout", "20m", "-overlay", ovPath, "-run", "^TestVerifNative$", "./"+strings.TrimPrefix(rel, "/"))
+	cmd := exec.Command("go", "test", "-v", "-tags", "verifnative", "-vet=off", "-count=1", "-timeout", "20m", "-overlay", ovPath, "-run", "^TestVerifNative$", "./"+strings.TrimPrefix(rel, "/"))
 	cmd.Dir = repo
 	cmd.Env = append(os.Environ(), "GOFLAGS=-mod=mod", "GOPROXY=off", "GOSUMDB=off", "GOTOOLCHAIN=local", "VERIF_CASES="+casesPath)
 	var out bytes.Buffer
